@@ -240,6 +240,8 @@ def run(ctx):
                     lambda f_, n_: n_.kind == 'for' and '_iterate_flattened_values' in u(n_.ast.iter), 'unknown-reference hook')
   loop_examines_all(ctx, 'C12.hooks', 'config.find_missing_overrides_hook',
                     lambda f_, n_: n_.kind == 'test' and 'isinstance(' in u(n_.ast) and 'ConfigurableReference' in u(n_.ast), '%gin.REQUIRED hook')
+  from .common import loop_source_unfiltered
+  loop_source_unfiltered(ctx, 'C12.hooks', 'config.validate_macros_hook', 'config.iterate_references', 'macro reference')
   # ---- C12.hooks
   reg = ctx.func('config.register_finalize_hook')
   app = [c for c in walk_local(reg.node) if isinstance(c, ast.Call) and u(c.func) == '_FINALIZE_HOOKS.append']
